@@ -1,34 +1,143 @@
 package rlp
 
 // C11, typed part: the reflection-driven decoders and encoders of
-// decode.go / encode.go / typecache.go executed for real over symbolic input
-// (the engine models package reflect: engine/intr_reflect_rlp.go).
+// decode.go / encode.go / typecache.go, executed for real over symbolic input
+// (the engine models package reflect: engine/intr_reflect_rlp.go; natively the
+// real package reflect runs, so counterexamples replay against the real build).
 //
-// (a) VerifC11T_DecEnc*: for EVERY byte string b with len(b) <= N, and for each
-//     target type of the list below, DecodeBytes(b, &x) either returns an error
-//     or x re-encodes (EncodeToBytes) to exactly b; nothing panics.
+// (a) VerifC11T_DecEnc*: for EVERY byte string b with len(b) <= N and each
+//     target type below, DecodeBytes(b, &x) either returns an error or x
+//     re-encodes (EncodeToBytes) to exactly b; nothing panics; decoded
+//     containers are not longer than the input.
 // (b) VerifC11T_EncDec*: for every value in the bound, EncodeToBytes succeeds
-//     and DecodeBytes of the result gives the same value back.
+//     and DecodeBytes of the result gives the same value back (modulo the
+//     documented pointer rules: a nil pointer encodes as the zero value of its
+//     element type, decode.go/encode.go package comments).
+//
+// Known-finding classes (genuine, natively reproduced, see the C11 report):
+//   C11-niltag-empty-other-kind      `rlp:"nil"` accepts 0x80 and 0xC0 alike
+//   C11-bytearray1-zero-not-rearmed  [1]byte{0} inside a list cannot be decoded
 
 import (
 	"bytes"
+	"errors"
+	"io"
 	"math/big"
 
 	vs "gitlab.com/aquachain/aquachain/internal/verifsym"
 )
+
+const (
+	c11tKnownNil  = "C11-niltag-empty-other-kind"
+	c11tKnownArr1 = "C11-bytearray1-zero-not-rearmed"
+)
+
+// ---------------------------------------------------------------------------
+// target types
 
 type c11tAB struct {
 	A uint
 	B []byte
 }
 
+type c11tInner struct{ X uint8 }
+
+// pointer fields with the "nil" tag: element kinds that encode nil as 0x80 ...
 type c11tNilUint struct {
 	A *uint `rlp:"nil"`
 }
 
+// ... the shape of core/types.txdata.Recipient (*common.Address `rlp:"nil"`) ...
+type c11tNilArr struct {
+	A *[2]byte `rlp:"nil"`
+	B uint8
+}
+
+// ... and an element kind that encodes nil as 0xC0.
+type c11tNilStruct struct {
+	A *c11tInner `rlp:"nil"`
+}
+
+type c11tTail struct {
+	A    uint8
+	Tail []uint16 `rlp:"tail"`
+}
+
+type c11tIgn struct {
+	A    uint8
+	Skip uint32 `rlp:"-"`
+	priv uint16
+	B    []byte
+}
+
+type c11tNested struct {
+	H c11tInner
+	P *c11tInner
+	L []c11tInner
+}
+
+type c11tPtrUint struct{ P *uint }
+
+type c11tBigs struct {
+	I big.Int
+	P *big.Int
+}
+
+type c11tArr1Pair struct {
+	A [1]byte
+	B [1]byte
+}
+
+// custom codec, value-receiver Encoder / pointer-receiver Decoder
+type c11tCustom struct{ v uint16 }
+
+var errC11tRange = errors.New("c11t: value out of range")
+
+func (c *c11tCustom) DecodeRLP(s *Stream) error {
+	u, err := s.Uint()
+	if err != nil {
+		return err
+	}
+	if u > 0xffff {
+		return errC11tRange
+	}
+	c.v = uint16(u)
+	return nil
+}
+
+func (c c11tCustom) EncodeRLP(w io.Writer) error { return Encode(w, uint64(c.v)) }
+
+// custom codec, both with pointer receivers (writeEncoderNoPtr / decodeDecoderNoPtr)
+type c11tCustomP struct{ v uint16 }
+
+func (c *c11tCustomP) DecodeRLP(s *Stream) error {
+	u, err := s.Uint()
+	if err != nil {
+		return err
+	}
+	if u > 0xffff {
+		return errC11tRange
+	}
+	c.v = uint16(u)
+	return nil
+}
+
+func (c *c11tCustomP) EncodeRLP(w io.Writer) error { return Encode(w, uint64(c.v)) }
+
+type c11tCustoms struct {
+	C c11tCustom
+	D *c11tCustom
+	E c11tCustomP
+}
+
+// ---------------------------------------------------------------------------
+// (a) decode-then-encode
+
 func c11tInput() []byte { return vs.Bytes("b", vs.Param("N")) }
 
-// c11tReencode states property (a) for one decoded value.
+// c11tReencode states property (a) for one decoded value v (what is handed to
+// EncodeToBytes: the value, or a pointer to it where the encoder needs an
+// addressable value).
 func c11tReencode(b []byte, err error, v interface{}) {
 	vs.Observe("accepted", err == nil)
 	if err != nil {
@@ -42,6 +151,27 @@ func c11tReencode(b []byte, err error, v interface{}) {
 	vs.Assert(bytes.Equal(enc, b), "re-encoding of the decoded value equals the input (one encoding per value)")
 }
 
+func VerifC11T_DecEncUint8() {
+	b := c11tInput()
+	var x uint8
+	err := DecodeBytes(b, &x)
+	c11tReencode(b, err, x)
+}
+
+func VerifC11T_DecEncUint16() {
+	b := c11tInput()
+	var x uint16
+	err := DecodeBytes(b, &x)
+	c11tReencode(b, err, x)
+}
+
+func VerifC11T_DecEncUint32() {
+	b := c11tInput()
+	var x uint32
+	err := DecodeBytes(b, &x)
+	c11tReencode(b, err, x)
+}
+
 func VerifC11T_DecEncUint64() {
 	b := c11tInput()
 	var x uint64
@@ -49,9 +179,99 @@ func VerifC11T_DecEncUint64() {
 	c11tReencode(b, err, x)
 }
 
+func VerifC11T_DecEncBool() {
+	b := c11tInput()
+	var x bool
+	err := DecodeBytes(b, &x)
+	c11tReencode(b, err, x)
+}
+
+func VerifC11T_DecEncBig() {
+	b := c11tInput()
+	x := new(big.Int)
+	err := DecodeBytes(b, x)
+	if err == nil {
+		vs.Assert(x.Sign() >= 0, "decoded big integer is not negative")
+	}
+	c11tReencode(b, err, x)
+}
+
+func VerifC11T_DecEncBigs() {
+	b := c11tInput()
+	var x c11tBigs
+	err := DecodeBytes(b, &x)
+	if err == nil {
+		vs.Assert(x.P != nil, "pointer field allocated")
+	}
+	c11tReencode(b, err, x)
+}
+
 func VerifC11T_DecEncBytes() {
 	b := c11tInput()
 	var x []byte
+	err := DecodeBytes(b, &x)
+	if err == nil {
+		vs.Assert(len(x) <= len(b), "decoded byte string not longer than the input")
+	}
+	c11tReencode(b, err, x)
+}
+
+func VerifC11T_DecEncString() {
+	b := c11tInput()
+	var x string
+	err := DecodeBytes(b, &x)
+	if err == nil {
+		vs.Assert(len(x) <= len(b), "decoded string not longer than the input")
+	}
+	c11tReencode(b, err, x)
+}
+
+func VerifC11T_DecEncArr4() {
+	b := c11tInput()
+	var x [4]byte
+	err := DecodeBytes(b, &x)
+	c11tReencode(b, err, x)
+}
+
+func VerifC11T_DecEncArr1() {
+	b := c11tInput()
+	var x [1]byte
+	err := DecodeBytes(b, &x)
+	c11tReencode(b, err, x)
+}
+
+func VerifC11T_DecEncArr1Pair() {
+	b := c11tInput()
+	var x c11tArr1Pair
+	err := DecodeBytes(b, &x)
+	if err == nil && len(b) >= 2 {
+		// a 0x00 in the first [1]byte position is not consumed and is read again
+		// for the second one: C1 00 is accepted as {0,0}
+		vs.Known(c11tKnownArr1, b[1] == 0)
+	}
+	c11tReencode(b, err, x)
+}
+
+func VerifC11T_DecEncRaw() {
+	b := c11tInput()
+	var x RawValue
+	err := DecodeBytes(b, &x)
+	c11tReencode(b, err, x)
+}
+
+func VerifC11T_DecEncUint16Slice() {
+	b := c11tInput()
+	var x []uint16
+	err := DecodeBytes(b, &x)
+	if err == nil {
+		vs.Assert(len(x) <= len(b), "decoded list not longer than the input")
+	}
+	c11tReencode(b, err, x)
+}
+
+func VerifC11T_DecEncUint16Arr2() {
+	b := c11tInput()
+	var x [2]uint16
 	err := DecodeBytes(b, &x)
 	c11tReencode(b, err, x)
 }
@@ -67,12 +287,285 @@ func VerifC11T_DecEncNilUint() {
 	b := c11tInput()
 	var x c11tNilUint
 	err := DecodeBytes(b, &x)
+	if err == nil && len(b) >= 2 {
+		vs.Known(c11tKnownNil, b[1] == 0xC0)
+	}
 	c11tReencode(b, err, x)
 }
 
-func VerifC11T_DecEncBig() {
+func VerifC11T_DecEncNilArr() {
 	b := c11tInput()
-	x := new(big.Int)
-	err := DecodeBytes(b, x)
+	var x c11tNilArr
+	err := DecodeBytes(b, &x)
+	if err == nil && len(b) >= 2 {
+		vs.Known(c11tKnownNil, b[1] == 0xC0)
+	}
 	c11tReencode(b, err, x)
+}
+
+func VerifC11T_DecEncNilStruct() {
+	b := c11tInput()
+	var x c11tNilStruct
+	err := DecodeBytes(b, &x)
+	if err == nil && len(b) >= 2 {
+		vs.Known(c11tKnownNil, b[1] == 0x80)
+	}
+	c11tReencode(b, err, x)
+}
+
+func VerifC11T_DecEncTail() {
+	b := c11tInput()
+	var x c11tTail
+	err := DecodeBytes(b, &x)
+	c11tReencode(b, err, x)
+}
+
+func VerifC11T_DecEncIgn() {
+	b := c11tInput()
+	var x c11tIgn
+	err := DecodeBytes(b, &x)
+	vs.Assert(x.Skip == 0 && x.priv == 0, "ignored and unexported fields are never written")
+	c11tReencode(b, err, x)
+}
+
+func VerifC11T_DecEncNested() {
+	b := c11tInput()
+	var x c11tNested
+	err := DecodeBytes(b, &x)
+	if err == nil {
+		vs.Assert(x.P != nil, "plain pointer field allocated")
+	}
+	c11tReencode(b, err, x)
+}
+
+func VerifC11T_DecEncCustoms() {
+	b := c11tInput()
+	var x c11tCustoms
+	err := DecodeBytes(b, &x)
+	c11tReencode(b, err, &x)
+}
+
+func VerifC11T_DecEncIface() {
+	b := c11tInput()
+	var x interface{}
+	err := DecodeBytes(b, &x)
+	if err == nil {
+		vs.Assert(x != nil, "decoded interface value is set")
+	}
+	c11tReencode(b, err, x)
+}
+
+// ---------------------------------------------------------------------------
+// (b) encode-then-decode
+
+func c11tEncode(v interface{}) []byte {
+	enc, err := EncodeToBytes(v)
+	vs.Assert(err == nil, "value encodes without error")
+	vs.Observe("enc", enc)
+	return enc
+}
+
+func VerifC11T_EncDecScalars() {
+	switch vs.Choice("type", 6) {
+	case 0:
+		x := vs.U8("x")
+		var y uint8
+		err := DecodeBytes(c11tEncode(x), &y)
+		vs.Assert(err == nil && y == x, "uint8 round trip")
+	case 1:
+		x := vs.U16("x")
+		var y uint16
+		err := DecodeBytes(c11tEncode(x), &y)
+		vs.Assert(err == nil && y == x, "uint16 round trip")
+	case 2:
+		x := vs.U32("x")
+		var y uint32
+		err := DecodeBytes(c11tEncode(x), &y)
+		vs.Assert(err == nil && y == x, "uint32 round trip")
+	case 3:
+		x := vs.U64("x")
+		var y uint64
+		err := DecodeBytes(c11tEncode(x), &y)
+		vs.Assert(err == nil && y == x, "uint64 round trip")
+	case 4:
+		x := vs.Bool("x")
+		var y bool
+		err := DecodeBytes(c11tEncode(x), &y)
+		vs.Assert(err == nil && y == x, "bool round trip")
+	case 5:
+		x := vs.BigU("x", 8*vs.Param("M"))
+		y := new(big.Int)
+		err := DecodeBytes(c11tEncode(x), y)
+		vs.Assert(err == nil, "big integer decodes")
+		vs.Assert(y.Cmp(x) == 0, "big integer round trip")
+	}
+}
+
+func VerifC11T_EncDecStrings() {
+	switch vs.Choice("type", 5) {
+	case 4:
+		x := string(vs.Bytes("s", vs.Param("M")))
+		var y string
+		err := DecodeBytes(c11tEncode(x), &y)
+		vs.Assert(err == nil, "string decodes")
+		vs.Assert(x == y, "string round trip")
+	case 0:
+		x := vs.Bytes("x", vs.Param("M"))
+		var y []byte
+		err := DecodeBytes(c11tEncode(x), &y)
+		vs.Assert(err == nil, "[]byte decodes")
+		vs.Assert(bytes.Equal(x, y), "[]byte round trip")
+	case 1:
+		var x, y [4]byte
+		copy(x[:], vs.BytesN("x", 4))
+		err := DecodeBytes(c11tEncode(x), &y)
+		vs.Assert(err == nil, "[4]byte decodes")
+		vs.Assert(x == y, "[4]byte round trip")
+	case 2:
+		var x, y [1]byte
+		copy(x[:], vs.BytesN("x", 1))
+		err := DecodeBytes(c11tEncode(x), &y)
+		vs.Assert(err == nil, "[1]byte decodes")
+		vs.Assert(x == y, "[1]byte round trip")
+	case 3:
+		var x, y c11tArr1Pair
+		x.A[0] = vs.U8("a")
+		x.B[0] = vs.U8("b")
+		enc := c11tEncode(x)
+		vs.Known(c11tKnownArr1, x.A[0] == 0 || x.B[0] == 0)
+		err := DecodeBytes(enc, &y)
+		vs.Assert(err == nil, "pair of [1]byte decodes")
+		vs.Assert(x == y, "pair of [1]byte round trip")
+	}
+}
+
+func VerifC11T_EncDecLists() {
+	switch vs.Choice("type", 3) {
+	case 0:
+		n := vs.Choice("n", 4)
+		x := make([]uint16, n)
+		for i := range x {
+			x[i] = vs.U16("x")
+		}
+		var y []uint16
+		err := DecodeBytes(c11tEncode(x), &y)
+		vs.Assert(err == nil, "[]uint16 decodes")
+		vs.Assert(len(y) == n, "[]uint16 length")
+		for i := 0; i < n && i < len(y); i++ {
+			vs.Assert(y[i] == x[i], "[]uint16 element")
+		}
+	case 1:
+		var x, y [2]uint16
+		x[0], x[1] = vs.U16("x"), vs.U16("x")
+		err := DecodeBytes(c11tEncode(x), &y)
+		vs.Assert(err == nil, "[2]uint16 decodes")
+		vs.Assert(x == y, "[2]uint16 round trip")
+	case 2:
+		x := c11tTail{A: vs.U8("a")}
+		n := vs.Choice("n", 3)
+		for i := 0; i < n; i++ {
+			x.Tail = append(x.Tail, vs.U16("t"))
+		}
+		var y c11tTail
+		err := DecodeBytes(c11tEncode(x), &y)
+		vs.Assert(err == nil, "tail struct decodes")
+		vs.Assert(y.A == x.A && len(y.Tail) == n, "tail struct head and length")
+		for i := 0; i < n && i < len(y.Tail); i++ {
+			vs.Assert(y.Tail[i] == x.Tail[i], "tail element")
+		}
+	}
+}
+
+func VerifC11T_EncDecStructs() {
+	switch vs.Choice("type", 6) {
+	case 5:
+		// plain pointers: nil encodes as the zero value of the element type
+		// (encode.go package comment) and therefore decodes as a pointer to it
+		var x, y c11tPtrUint
+		v := uint(vs.U64("a"))
+		if vs.Choice("nil", 2) == 0 {
+			x.P = &v
+		}
+		err := DecodeBytes(c11tEncode(x), &y)
+		vs.Assert(err == nil, "pointer struct decodes")
+		if x.P == nil {
+			vs.Assert(y.P != nil && *y.P == 0, "nil plain pointer comes back as the zero value")
+		} else {
+			vs.Assert(y.P != nil && *y.P == v, "plain pointer round trip")
+		}
+	case 0:
+		x := c11tAB{A: uint(vs.U64("a")), B: vs.Bytes("b", vs.Param("M"))}
+		var y c11tAB
+		err := DecodeBytes(c11tEncode(x), &y)
+		vs.Assert(err == nil, "struct decodes")
+		vs.Assert(y.A == x.A, "struct uint field")
+		vs.Assert(bytes.Equal(y.B, x.B), "struct bytes field")
+	case 1:
+		// "nil" tag: documented rule - an input of size zero decodes as nil, so a
+		// pointer to the zero value comes back as nil; everything else comes back
+		// as a pointer to an equal value.
+		var x, y c11tNilUint
+		v := uint(vs.U64("a"))
+		if vs.Choice("nil", 2) == 0 {
+			x.A = &v
+		}
+		err := DecodeBytes(c11tEncode(x), &y)
+		vs.Assert(err == nil, "nil-tag struct decodes")
+		if x.A == nil {
+			vs.Assert(y.A == nil, "nil pointer round trip")
+		} else {
+			vs.Assert((v == 0 && y.A == nil) || (v != 0 && y.A != nil && *y.A == v), "non-nil tagged pointer round trip")
+		}
+	case 2:
+		var x, y c11tNilArr
+		var a [2]byte
+		copy(a[:], vs.BytesN("a", 2))
+		x.B = vs.U8("b")
+		if vs.Choice("nil", 2) == 0 {
+			x.A = &a
+		}
+		err := DecodeBytes(c11tEncode(x), &y)
+		vs.Assert(err == nil, "nil-tag array struct decodes")
+		vs.Assert(y.B == x.B, "field after the tagged pointer")
+		if x.A == nil {
+			vs.Assert(y.A == nil, "nil array pointer round trip")
+		} else {
+			vs.Assert(y.A != nil && *y.A == a, "array pointer round trip")
+		}
+	case 3:
+		var x, y c11tNested
+		x.H.X = vs.U8("h")
+		in := c11tInner{X: vs.U8("p")}
+		x.P = &in // (a nil *struct encodes as C0, which only a "nil"-tagged field accepts: documented, not asserted)
+		n := vs.Choice("n", 3)
+		for i := 0; i < n; i++ {
+			x.L = append(x.L, c11tInner{X: vs.U8("l")})
+		}
+		err := DecodeBytes(c11tEncode(x), &y)
+		vs.Assert(err == nil, "nested struct decodes")
+		vs.Assert(y.H == x.H && len(y.L) == n, "nested struct head and list length")
+		vs.Assert(y.P != nil && *y.P == in, "plain pointer round trip")
+		for i := 0; i < n && i < len(y.L); i++ {
+			vs.Assert(y.L[i] == x.L[i], "nested list element")
+		}
+	case 4:
+		x := c11tIgn{A: vs.U8("a"), Skip: vs.U32("skip"), priv: vs.U16("priv"), B: vs.Bytes("b", 2)}
+		var y c11tIgn
+		err := DecodeBytes(c11tEncode(x), &y)
+		vs.Assert(err == nil, "struct with ignored fields decodes")
+		vs.Assert(y.A == x.A && y.Skip == 0 && y.priv == 0, "ignored fields are not transported")
+		vs.Assert(bytes.Equal(y.B, x.B), "field after the ignored ones")
+	}
+}
+
+func VerifC11T_EncDecCustoms() {
+	var x, y c11tCustoms
+	x.C.v = vs.U16("c")
+	d := c11tCustom{v: vs.U16("d")}
+	x.D = &d
+	x.E.v = vs.U16("e")
+	err := DecodeBytes(c11tEncode(&x), &y)
+	vs.Assert(err == nil, "custom codec struct decodes")
+	vs.Assert(y.C == x.C && y.E == x.E, "custom codec fields")
+	vs.Assert(y.D != nil && *y.D == d, "custom codec pointer field")
 }
